@@ -9,7 +9,7 @@ ASSUMPTIONS = ["raw header / string lengths are small (bounds per harness); leng
                "CLI printing paths: see C18 harnesses; decoders: C09"]
 from C16 import it, rd
 HARNESSES = [it("safety", len0=l, ret=r, timeout=120) for l, r in [(0, 24), (12, 12), (7, 17), (0, 13), (0, 1), (0, 11), (5, 3)]] + [rd(l, b, "safety") for l, b in [(24, 22), (13, 22), (5, 3)]] + ext_all(mode="safety") + [walk(16, mode="safety"), extend(3), extend(6, timeout=1800, tier="thorough"), l23(2, 36, mode="safety"), l23(3, 44, mode="safety"), l1ext(9, mode="safety"),
-             l01(40, mode="safety", timeout=600), tail(2, mode="safety"), rsm(2, 3, mode="safety", timeout=600),
+             l01(40, mode="safety", timeout=600), l01(36, mode="safety", timeout=900, rawend=True), l01(40, mode="safety", timeout=3600, rawend=True, tier="thorough"), tail(2, mode="safety"), rsm(2, 3, mode="safety", timeout=600),
              walk(24, mode="safety", timeout=1800, tier="thorough"), rsm(3, 4, mode="safety", timeout=2400, tier="thorough")]
 
 # CLI printing / extraction paths under the memory instrumentation: the C18 harnesses (real src/list.c, src/extract.c, src/safe.c on a member with
